@@ -94,6 +94,12 @@ async def script(loop, ctx):
             force_quit = True
             nsteps = max(nsteps, len(forced) + rnd.choice([0, 0, 2]))
             counts["forced_marked_then_expunged_then_quit"] += 1
+        if k % 6 == 4 and len(table) >= 3:
+            # sizes announced, one of those messages expunged by IMAP, reads of it refused, sizes asked again: a size once
+            # announced stays what it was
+            forced = [("pop", "LIST", 1), ("pop", "STAT", 1), ("imap", "expunge", ("msg", 2)), ("pop", "TOP", 2), ("pop", "RETR", 2), ("pop", "LIST", 1), ("pop", "LISTN", 2), ("pop", "STAT", 1), ("pop", "UIDL", 1)]
+            nsteps = max(nsteps, len(forced) + rnd.choice([0, 2]))
+            counts["forced_sized_then_expunged_then_read"] += 1
         for step in range(nsteps):
             f = forced.pop(0) if forced else None
             r = rnd.random()
@@ -153,7 +159,9 @@ async def script(loop, ctx):
                         live = {c[0] for c in cur}
                         marked_uids = [t[1] for t in table if t[0] in marks and t[1] in live]
                         vu = rnd.choice(marked_uids) if marked_uids and rnd.random() < 0.6 else rnd.choice(cur)[0]
-                        if f and marked_uids:
+                        if f and isinstance(f[2], tuple) and table[f[2][1] - 1][1] in live:
+                            vu = table[f[2][1] - 1][1]
+                        elif f and marked_uids:
                             vu = min(marked_uids)
                         if vu in marked_uids:
                             counts["imap_expunged_a_marked_message"] += 1
@@ -193,7 +201,7 @@ async def script(loop, ctx):
                     n_ = int(x[0])
                     if cmd == "LIST":
                         sz = int(x[1])
-                        if n_ in sizes and sizes[n_] != sz and not (table[n_ - 1][1] in gone_uids):
+                        if n_ in sizes and sizes[n_] != sz:
                             bad("list-size-changed", f"message {n_}: {sizes[n_]} then {sz}")
                         sizes.setdefault(n_, sz)
                     else:
@@ -212,7 +220,7 @@ async def script(loop, ctx):
                     if cmd == "UIDLN" and int(parts[2]) != table[num - 1][1]:
                         bad("uidl-differs-from-imap-uid", f"{rep.line} vs {table[num - 1][1]}")
                     if cmd == "LISTN":
-                        if num in sizes and sizes[num] != int(parts[2]) and table[num - 1][1] not in gone_uids:
+                        if num in sizes and sizes[num] != int(parts[2]):
                             bad("list-size-changed", f"message {num}: {sizes[num]} then {parts[2]}")
                         sizes.setdefault(num, int(parts[2]))
             elif cmd in ("RETR", "TOP"):
